@@ -1,4 +1,15 @@
 from . import has_class
-CFG = {"harness": ["v1", "v2"], "functional": ["C05.comments", "C05.pkgcomments"],
-       "required_classes": ["layout", "doc", "detached", "trailing", "block-comment", "struct-fields", "method", "grouped", "interface-methods", "adjacent-declarations", "doc.go"],
-       "rule": "wip", "manifest": {"text": "wip", "note": "wip"}}
+
+CFG = {
+    "harness": ["v1", "v2"],
+    "functional": ["C05.comments", "C05.pkgcomments"],
+    "required_classes": ["layout", "doc", "detached", "trailing", "block-comment", "struct-fields", "method", "grouped", "interface-methods", "adjacent-declarations", "doc.go"],
+    "rule": 'gofmt-formatted source layouts from a layout grammar: single and grouped type/const/var declarations, functions, methods, struct fields, interface methods, adjacent declarations without blank lines, // and /* */ doc blocks (one or several lines), detached blocks one blank line above, trailing comments (line and block style, also after braces and parentheses and on the package clause), 1-2 files plus doc.go; comment groups (start line, end line, trailing flag from the source text, Text() lines) and declaration lines come from an independent go/parser pass; real loaders: v1 from a scratch GOPATH, v2 from a module; observable = CommentLines and SecondClosestCommentLines of every declaration, field and method, Package.Comments/DocComments; non-trivial = input longer than 12 characters',
+    "exhaustive": [],
+    "modelled": 'the endLineToCommentGroup index (later group wins, trailing groups left out), priorCommentLines, docComment/priorDetachedComment, addCommentsToType, member and method comments, the doc.go special case. Comment grouping, positions and CommentGroup.Text() are go/parser / go/ast behaviour taken as input.',
+    "assumptions": ["sources are gofmt-formatted (the property's quantifier)"],
+    "manifest": {
+        "text": "Coq theorems: a declaration is delivered exactly the non-trailing comment group that ends on the line above it (none if there is none), its second-closest block is the non-trailing group ending two lines above the doc block (or above the declaration), for every layout whose non-trailing groups end on distinct lines; a trailing group is never delivered; doc.go's groups are the package comments in file order. Tied to /repo each run: layouts from a layout grammar loaded by the real v1 and v2 loaders and compared with the extracted model fed by an independent go/parser pass",
+        "note": 'partial: comment grouping and Text() normalisation are go/parser / go/ast behaviour taken as input; trusted: Coq kernel, extraction, OCaml driver, Go harness',
+    },
+}
